@@ -3,7 +3,8 @@
 A program is a list of ops over host handles (numbered in creation order):
   ["new"] ["g1",h] ["g2",h1,h2] ["mi",h] ["md",h] ["free",h]
   ["keep",n,recv(,burst)] ["ctx",n,recv] ["flush"]      burst: all OKs delivered at the first wait poll
-  ["seq",n,recv]   keep with sequential=True and a post routine that measures (finding witnesses only)
+  ["seq",n,recv(,burst)]   keep with sequential=True and a post routine that measures; the n returned
+                           handles are numbered like any others but are dead
 A configuration is (max_q, nv_hw, transp).
 
 Session runs the ops one by one through sdk_pipeline.Pipeline (real Qubit /
@@ -316,7 +317,7 @@ def run_program(repo, cfg, ops):
 def refusal_expected(cfg, s_ids, op):
     """NV, several pairs kept at once: _create_ent_qubits asserts that IDs 0..n-1 are unused
     (documented limitation, the SDK builds nothing).  Not an allocation fault."""
-    return op[0] in ("keep", "ctx") and cfg.nv and op[1] >= 2 and any(v < op[1] for v in s_ids)
+    return op[0] == "keep" and cfg.nv and op[1] >= 2 and any(v < op[1] for v in s_ids)
 
 
 def class_key(cfg, s, op):
@@ -325,10 +326,6 @@ def class_key(cfg, s, op):
         a, b = s.hid(op[1]), s.hid(op[2])
         if a != 0 and b != 0 and 0 not in s.ids():
             return "C09:nv-transpiler-carbon-gate-borrows-unallocated-electron"
-    if op[0] == "ctx" and cfg.nv and op[1] >= 2:
-        return "C09:nv-epr-context-preallocates-pair-ids"
-    if op[0] == "seq":
-        return "C09:sequential-keep-handles-stay-active"
     return None
 
 
@@ -352,8 +349,8 @@ def gen_program(repo, cfg, rng, max_len, want_refusal=False):
                         cand.append((op, 0.3))
                 else:
                     cand.append((op, 1.2 / n))
-                if not (cfg.nv and n >= 2):
-                    cand.append((("ctx", n, rng.random() < 0.5), 0.8 / n))
+                cand.append((("ctx", n, rng.random() < 0.5), 0.8 / n))
+            cand.append((("seq", rng.randint(1, 3), rng.random() < 0.5, rng.random() < 0.5), 0.8))
         if live:
             h = rng.choice(live)
             cand += [(("g1", h), 2.0), (("mi", h), 1.5), (("md", h), 3.0), (("free", h), 2.0)]
@@ -379,6 +376,8 @@ def gen_program(repo, cfg, rng, max_len, want_refusal=False):
         elif op[0] == "keep":
             live += list(range(nh, nh + op[1]))
             nh += op[1]
+        elif op[0] == "seq":
+            nh += op[1]          # handles handed out, already consumed by the post routine
         elif op[0] in ("md", "free"):
             live.remove(op[1])
         assert len(s.handles) == nh, (len(s.handles), nh, before)
@@ -401,10 +400,10 @@ def enumerate_programs(cfg, depth):
             nxt.append((["new"], live + [nh], nh + 1))
             nxt.append((["keep", 1, False], live + [nh], nh + 1))
             nxt.append((["ctx", 1, True], live, nh))
+            nxt.append((["seq", 2, True, True], live, nh + 2))
             if room >= 2:
                 nxt.append((["keep", 2, True, True], live + [nh, nh + 1], nh + 2))   # both OKs at the first poll
-                if not cfg.nv:
-                    nxt.append((["ctx", 2, False], live, nh))
+                nxt.append((["ctx", 2, False], live, nh))
         for h in live:
             nxt.append((["mi", h], live, nh))
             nxt.append((["md", h], [x for x in live if x != h], nh))
